@@ -93,7 +93,7 @@ PROPS = {
     note=E1_NOTE + " " + E2_NOTE,
     technique=E1_TECH + " + CFG dominance rule (shape test before element loop) on instantiations",
     e1=[dict(tu="c18_isequal.cpp")],
-    e2=[dict(rule="R-EQSHAPE"), dict(rule="R-EQLEN")],
+    e2=[dict(rule="R-EQSHAPE"), dict(rule="R-EQLEN"), dict(rule="R-MAYBE.compare")],
     e3=[dict(group="C18")],
     rule=E1_RULE,
     explanation="every case of the property's case table is an obligation with the call under test inside the case.",
